@@ -78,21 +78,25 @@ Theorem C17_schema_keys : schema_keys_ok = true.
 Proof. exact schema_keys_ok_true. Qed.
 Print Assumptions C17_schema_keys.
 
-(** the device decoder silently substitutes the class default for an absent
-    "dmm_objects": harmless for Device (default empty), not for VirtualDevice *)
-Theorem C17_dmm_default_device : dmm_default_is_empty tbl_Device = true.
-Proof. exact dmm_default_device. Qed.
-Print Assumptions C17_dmm_default_device.
+(** the device decoder takes "dmm_objects" from the JSON alone: an absent
+    key decodes to no DMM whatever the class default is (since commit
+    877338bd; before it the VirtualDevice default (DMM(),) was substituted) *)
+Theorem C17_dec_dev_absent_dmm_is_empty : forall obj d,
+  get "dmm_objects" obj = None ->
+  dec_dev (PDict obj) = Some d ->
+  attr "dmm_objects" d = PList [].
+Proof. exact dec_dev_absent_dmm_is_empty. Qed.
+Print Assumptions C17_dec_dev_absent_dmm_is_empty.
 
-Theorem C17_device_roundtrip_refuted :
-  exists d d',
+(** regression witness: the VirtualDevice without DMM round-trips exactly *)
+Theorem C17_device_empty_dmm_roundtrip :
+  exists d,
     class_of d = "VirtualDevice"
     /\ attr "dmm_objects" d = PList []
-    /\ roundtrip_dev d = Some d'
-    /\ same (Some (attr "dmm_objects" d')) (default_of tbl_VirtualDevice "dmm_objects") = true
-    /\ pyeq (attr "dmm_objects" d) (attr "dmm_objects" d') = false.
-Proof. exact device_roundtrip_refuted. Qed.
-Print Assumptions C17_device_roundtrip_refuted.
+    /\ same (default_of tbl_VirtualDevice "dmm_objects") (Some (PList [])) = false
+    /\ same (roundtrip_dev d) (Some d) = true.
+Proof. exact device_empty_dmm_roundtrip. Qed.
+Print Assumptions C17_device_empty_dmm_roundtrip.
 
 (** a noise model's active types are exactly those with a truthy parameter *)
 Theorem C17_noise_types_exact : forall args inst,
@@ -149,19 +153,18 @@ Theorem C17_no_shared_state_local : forall h d i a,
 Proof. exact new_local_frame. Qed.
 Print Assumptions C17_no_shared_state_local.
 
-(** ... StateRepr as written stores _n_qudits on the class: refuted ... *)
-Theorem C17_staterepr_shared_state_refuted :
-  exists h1 h2 eig amps,
-    staterepr_new h1 eig amps = Some h2
-    /\ read_attr h1 0 "_n_qudits" = Some (PInt 2)
-    /\ read_attr h2 0 "_n_qudits" = Some (PInt 3).
-Proof. exact staterepr_shared_state_refuted. Qed.
-Print Assumptions C17_staterepr_shared_state_refuted.
-
-(** ... and with the attribute stored on the instance it holds *)
-Theorem C17_staterepr_fixed_no_sharing : forall h eig amps h' i a,
-  staterepr_new_fixed h eig amps = Some h' ->
+(** ... StateRepr (as written since commit b3b580b8) is such a constructor ... *)
+Theorem C17_staterepr_no_sharing : forall h eig amps h' i a,
+  staterepr_new h eig amps = Some h' ->
   (i < List.length (h_objs h))%nat ->
   read_attr h' i a = read_attr h i a.
-Proof. exact staterepr_fixed_no_sharing. Qed.
-Print Assumptions C17_staterepr_fixed_no_sharing.
+Proof. exact staterepr_no_sharing. Qed.
+Print Assumptions C17_staterepr_no_sharing.
+
+(** ... so after any sequence of constructions every instance reads its own
+    number of qudits *)
+Theorem C17_staterepr_reads_own : forall l h,
+  build_states empty_heap l = Some h ->
+  nq_readings h = map own_nq l.
+Proof. exact staterepr_reads_own. Qed.
+Print Assumptions C17_staterepr_reads_own.
